@@ -35,7 +35,7 @@ def parse(data):
     size = len(data)
     if size < 16:
         raise TiffError("tiff-header", "file of %d bytes has no BigTIFF header" % size)
-    bo, ver, osz, zero, first = struct.unpack_from("<2sHHHQ", data, 0)
+    bo, ver, osz, zero, first = _unp("<2sHHHQ", data, 0)
     if bo != b"II" or ver != 43 or osz != 8 or zero != 0:
         raise TiffError("tiff-header", "bad header %r ver=%d offsetsize=%d zero=%d" % (bo, ver, osz, zero))
     ranges = [(0, 16, "header")]
@@ -49,7 +49,7 @@ def parse(data):
         if off + 8 > size:
             raise TiffError("tiff-link-outside-file", "IFD %d at offset %d is outside the %d-byte file "
                             "(chain not terminated)" % (len(ifds), off, size))
-        (ntags,) = struct.unpack_from("<Q", data, off)
+        (ntags,) = _unp("<Q", data, off)
         if ntags > 4096:
             raise TiffError("tiff-ifd-garbage", "IFD %d at %d claims %d tags" % (len(ifds), off, ntags))
         end = off + 8 + 20 * ntags + 8
@@ -58,7 +58,7 @@ def parse(data):
         ranges.append((off, end, "ifd%d" % len(ifds)))
         tags = {}
         for t in range(ntags):
-            tag, typ, count = struct.unpack_from("<HHQ", data, off + 8 + 20 * t)
+            tag, typ, count = _unp("<HHQ", data, off + 8 + 20 * t)
             raw = data[off + 8 + 20 * t + 12: off + 8 + 20 * t + 20]
             tsz = TYPE_SIZE.get(typ)
             if tsz is None:
@@ -76,7 +76,7 @@ def parse(data):
             if tag in tags and tag not in (282, 283):
                 raise TiffError("tiff-duplicate-tag", "IFD %d has tag %d twice" % (len(ifds), tag))
             tags.setdefault(tag, (typ, count, val))
-        (nxt,) = struct.unpack_from("<Q", data, end - 8)
+        (nxt,) = _unp("<Q", data, end - 8)
         ifds.append(tags)
         off = nxt
         if len(ifds) > 100000:
@@ -84,15 +84,85 @@ def parse(data):
     return ifds, ranges
 
 
+def _unp(fmt, data, off):
+    return struct.unpack(fmt, data[off:off + struct.calcsize(fmt)])
+
+
+class SparseFile:
+    """Random access to a multi-GiB, mostly-hole file without reading the holes."""
+
+    def __init__(self, path):
+        self.fd = os.open(path, os.O_RDONLY)
+        self.size = os.fstat(self.fd).st_size
+
+    def __len__(self):
+        return self.size
+
+    def __getitem__(self, sl):
+        start, stop, _ = sl.indices(self.size)
+        out = b""
+        while len(out) < stop - start:
+            chunk = os.pread(self.fd, stop - start - len(out), start + len(out))
+            if not chunk:
+                break
+            out += chunk
+        return out
+
+    def extents(self, off, n):
+        """data extents (absolute [a,b)) intersecting [off, off+n); everything else reads as zeros"""
+        out, pos, end = [], off, min(off + n, self.size)
+        while pos < end:
+            try:
+                a = os.lseek(self.fd, pos, os.SEEK_DATA)
+            except OSError:
+                break  # ENXIO: only a hole up to the end
+            if a >= end:
+                break
+            b = min(os.lseek(self.fd, a, os.SEEK_HOLE), end)
+            out.append((a, b))
+            pos = b
+        return out
+
+    def close(self):
+        os.close(self.fd)
+
+
+def _load(path):
+    """bytes for ordinary files, SparseFile for the multi-GiB (sparse) ones"""
+    if os.path.getsize(path) > (64 << 20):
+        return SparseFile(path)
+    with open(path, "rb") as f:
+        return f.read()
+
+
+def _same(a, aoff, b, boff, n, chunk=8 << 20):
+    if aoff + n > len(a) or boff + n > len(b):
+        return False
+    if isinstance(a, SparseFile) and isinstance(b, SparseFile):
+        # compare wherever either file holds data; where both have holes both read as zeros
+        rel = [(max(x, aoff) - aoff, y - aoff) for x, y in a.extents(aoff, n)] + \
+              [(max(x, boff) - boff, y - boff) for x, y in b.extents(boff, n)]
+    else:
+        rel = [(0, n)]
+    for x, y in rel:
+        done = x
+        while done < y:
+            k = min(chunk, y - done)
+            if a[aoff + done:aoff + done + k] != b[boff + done:boff + done + k]:
+                return False
+            done += k
+    return True
+
+
 def check_expectation(path):
     exp = json.load(open(path))
     out = []
     frames = exp["frames"]
     try:
-        data = open(exp["tif"], "rb").read()
+        data = _load(exp["tif"])
     except OSError as e:
         return [("tiff-file-missing", "cannot read %s: %s" % (exp["tif"], e))], exp
-    pixels = open(exp["pixels"], "rb").read()
+    pixels = _load(exp["pixels"])
     try:
         ifds, ranges = parse(data)
     except TiffError as e:
@@ -121,7 +191,7 @@ def check_expectation(path):
                 ranges.append((soff, soff + scount, "strip%d" % i))
                 if scount < f["img"]:
                     out.append(("tiff-strip-too-short", "IFD %d strip has %d bytes, image has %d" % (i, scount, f["img"])))
-                elif data[soff:soff + f["img"]] != pixels[ppos:ppos + f["img"]]:
+                elif not _same(data, soff, pixels, ppos, f["img"]):
                     out.append(("tiff-pixels-mismatch", "IFD %d strip differs from the appended pixels" % i))
             typ, count, val = need(270, "ImageDescription")
             if typ != 2:
@@ -166,6 +236,9 @@ def check_expectation(path):
                 out.append(("tiff-json-metadata-missing", "metadata.json missing, user metadata %r" % want[:80]))
         elif got != want:
             out.append(("tiff-json-metadata-mismatch", "metadata.json holds %r, user metadata is %r" % (got[:80], want[:80])))
+    for f in (data, pixels):
+        if isinstance(f, SparseFile):
+            f.close()
     return out, exp
 
 
